@@ -26,7 +26,7 @@ package dns
 //@   ensures fail: err != nil ==> off1 == len(msg)
 //@   ensures val:  err == nil ==> i == msg[off]*16777216 + msg[off+1]*65536 + msg[off+2]*256 + msg[off+3]
 
-//@ func unpackUint48 [C01 C02]
+//@ func unpackUint48 [C01 C02 C11]
 //@   ensures only: err != nil ==> off + 6 > len(msg) [C01]
 //@   requires 0 <= off
 //@   ensures ok:   err == nil ==> off1 == off + 6 && off1 <= len(msg)
@@ -383,6 +383,8 @@ package dns
 
 //@ func (*Msg).unpack [C01 C02]
 //@   requires 0 <= off
+// a message that ends after its header is a message without sections, whatever the Msg held before
+//@   ensures hdronly: off == len(msg) ==> err == nil && len(dns.Question) == 0 && len(dns.Answer) == 0 && len(dns.Ns) == 0 && len(dns.Extra) == 0 [C01]
 //@   exit rcodejoin: called("ExtendedRcode") && 0 <= old(dns.Rcode) && old(dns.Rcode) <= 15 ==> dns.Rcode == old(dns.Rcode) + callres("ExtendedRcode") [C01]
 //@   exit rcodekeep: !called("ExtendedRcode") ==> dns.Rcode == old(dns.Rcode) [C01]
 //@   loop 1 invariant 0 <= i && old(off) <= off
